@@ -448,6 +448,7 @@ OWN_SEEDS = [
     "unsigned char a; void main() { csleep(-2); csleep(11); csleep(100); csleep(65536); a = 1; }",
     "unsigned char a; void main() { if (a) { } else { } { } ; ; }",
     "void main() { X = 1; }\n",
+    "unsigned char a; void main() { a = 1; " + "a++; " * 48 + 'asm("; \u00e9\u00e9\u00e9\u00e9\u00e9\u00e9\u00e9\u00e9 end", 0); a--; }\n',
     "unsigned char elsex, returny; void main() { if (X) Y = 1; elsex = 2; returny = 3; do{ X--; }while(X); }\n",
 ]
 
